@@ -3,214 +3,217 @@
    code_f / doc_f (Gen/Bench.v) are regenerated on every check from the body / the docstring formula of
    f in /repo/opytimizer/math/benchmark.py.  [den e x : option R] is the guarded denotation
    (Base/RExprBench.v): division by 0, sqrt of a negative number, 0 ** negative and negative ** non-integer
-   are undefined (None) -- Coq's totalised x/0 = 0 is never used.  [x] is the input array (any length).
-   Property theorems only; the lemmas are in Model/BenchProofs.v and are transferred to the regenerated
-   code term by the one-line tactics bench_* (syntactic identity first, semantic comparison otherwise). *)
+   are undefined (None) -- Coq's totalised x/0 = 0 is never used.  [x] is the input array (a list of reals of
+   any length: every statement is for every dimension).  [in_box lo hi x]: every coordinate is in [lo, hi].
+   One theorem per function (Print Assumptions is run on each):
+     (formula)  den code_f x = den doc_f x     -- both sides undefined together or not at all;
+     (lower)    defined and never below the documented minimum;   (min) attained at the known minimiser.
+   Property theorems only; the lemmas are in Model/BenchProofs.v and are transferred to the regenerated code
+   term by the one-line tactics bench_* (syntactic identity first, semantic comparison otherwise). *)
 From Coq Require Import Strings.String.
 From Coq Require Import Reals List ZArith Lia Lra.
 From OV Require Import Base.RExprBench Model.BenchProofs Gen.Bench.
 Import ListNotations.
 Open Scope R_scope.
 
-(* ================================================================= 1. code = documented formula, all 17,
-   every dimension n >= 1 (n >= 2 for Brown), every real input; both sides undefined together or not at all *)
-Theorem C17_formula_ackley1 : forall n x, length x = n -> (1 <= n)%nat -> den code_ackley1 x = den doc_ackley1 x.
-Proof. bench_formula. Qed.
-Theorem C17_formula_alpine1 : forall n x, length x = n -> (1 <= n)%nat -> den code_alpine1 x = den doc_alpine1 x.
-Proof. bench_formula. Qed.
-Theorem C17_formula_alpine2 : forall n x, length x = n -> (1 <= n)%nat -> den code_alpine2 x = den doc_alpine2 x.
-Proof. bench_formula. Qed.
-Theorem C17_formula_brown : forall n x, length x = n -> (2 <= n)%nat -> den code_brown x = den doc_brown x.
-Proof. bench_formula. Qed.
-Theorem C17_formula_chung_reynolds : forall n x, length x = n -> (1 <= n)%nat -> den code_chung_reynolds x = den doc_chung_reynolds x.
-Proof. bench_formula. Qed.
-Theorem C17_formula_cosine_mixture : forall n x, length x = n -> (1 <= n)%nat -> den code_cosine_mixture x = den doc_cosine_mixture x.
-Proof. bench_formula. Qed.
-Theorem C17_formula_csendes : forall n x, length x = n -> (1 <= n)%nat -> den code_csendes x = den doc_csendes x.
-Proof. bench_formula. Qed.
-Theorem C17_formula_deb1 : forall n x, length x = n -> (1 <= n)%nat -> den code_deb1 x = den doc_deb1 x.
-Proof. bench_formula. Qed.
-Theorem C17_formula_deb2 : forall n x, length x = n -> (1 <= n)%nat -> den code_deb2 x = den doc_deb2 x.
-Proof. bench_formula. Qed.
-Theorem C17_formula_exponential : forall n x, length x = n -> (1 <= n)%nat -> den code_exponential x = den doc_exponential x.
-Proof. bench_formula. Qed.
-Theorem C17_formula_quintic : forall n x, length x = n -> (1 <= n)%nat -> den code_quintic x = den doc_quintic x.
-Proof. bench_formula. Qed.
-Theorem C17_formula_rastringin : forall n x, length x = n -> (1 <= n)%nat -> den code_rastringin x = den doc_rastringin x.
-Proof. bench_formula. Qed.
-Theorem C17_formula_salomon : forall n x, length x = n -> (1 <= n)%nat -> den code_salomon x = den doc_salomon x.
-Proof. bench_formula. Qed.
-Theorem C17_formula_schumer_steiglitz : forall n x, length x = n -> (1 <= n)%nat -> den code_schumer_steiglitz x = den doc_schumer_steiglitz x.
-Proof. bench_formula. Qed.
-Theorem C17_formula_schwefel : forall n x, length x = n -> (1 <= n)%nat -> den code_schwefel x = den doc_schwefel x.
-Proof. bench_formula. Qed.
-Theorem C17_formula_sphere : forall n x, length x = n -> (1 <= n)%nat -> den code_sphere x = den doc_sphere x.
-Proof. bench_formula. Qed.
-Theorem C17_formula_styblinski_tang : forall n x, length x = n -> (1 <= n)%nat -> den code_styblinski_tang x = den doc_styblinski_tang x.
-Proof. bench_formula. Qed.
-
-(* the table regenerated from the source lists exactly these 17 functions *)
+(* the table regenerated from the source lists exactly the 17 functions below *)
 Theorem C17_all_active_functions_covered :
   bench_functions = ["ackley1"; "alpine1"; "alpine2"; "brown"; "chung_reynolds"; "cosine_mixture"; "csendes"; "deb1"; "deb2";
                      "exponential"; "quintic"; "rastringin"; "salomon"; "schumer_steiglitz"; "schwefel"; "sphere";
                      "styblinski_tang"]%string.
 Proof. reflexivity. Qed.
 
-(* ================================================================= 2. coherent documented minima:
-   defined and never below the minimum (for every array; inside the documented box where the box matters),
-   and the minimum is attained at the known minimiser, in every dimension *)
+(* ================================================================= 1. coherent documented minima *)
 
-(* sphere: minimum 0 at the origin *)
-Theorem C17_sphere_lower : forall x, exists v, den code_sphere x = Some v /\ 0 <= v.
-Proof. bench_lower ref_sphere sphere_lower. Qed.
-Theorem C17_sphere_min : forall n, den code_sphere (repeat 0 n) = Some 0.
-Proof. bench_value ref_sphere sphere_min. Qed.
+(* sphere, box [-5.12, 5.12]: minimum 0 at the origin (bound and formula hold for every real array) *)
+Theorem C17_sphere :
+  (forall n x, length x = n -> (1 <= n)%nat -> den code_sphere x = den doc_sphere x) /\
+  (forall x, exists v, den code_sphere x = Some v /\ 0 <= v) /\
+  (forall n, den code_sphere (repeat 0 n) = Some 0).
+Proof. split; [bench_formula | split; [bench_lower ref_sphere sphere_lower | bench_value ref_sphere sphere_min]]. Qed.
 
-(* chung_reynolds: minimum 0 at the origin *)
-Theorem C17_chung_reynolds_lower : forall x, exists v, den code_chung_reynolds x = Some v /\ 0 <= v.
-Proof. bench_lower ref_chung_reynolds chung_reynolds_lower. Qed.
-Theorem C17_chung_reynolds_min : forall n, den code_chung_reynolds (repeat 0 n) = Some 0.
-Proof. bench_value ref_chung_reynolds chung_reynolds_min. Qed.
+(* chung_reynolds, box [-100, 100]: minimum 0 at the origin *)
+Theorem C17_chung_reynolds :
+  (forall n x, length x = n -> (1 <= n)%nat -> den code_chung_reynolds x = den doc_chung_reynolds x) /\
+  (forall x, exists v, den code_chung_reynolds x = Some v /\ 0 <= v) /\
+  (forall n, den code_chung_reynolds (repeat 0 n) = Some 0).
+Proof.
+  split; [bench_formula | split; [bench_lower ref_chung_reynolds chung_reynolds_lower | bench_value ref_chung_reynolds chung_reynolds_min]].
+Qed.
 
-(* schumer_steiglitz: minimum 0 at the origin *)
-Theorem C17_schumer_steiglitz_lower : forall x, exists v, den code_schumer_steiglitz x = Some v /\ 0 <= v.
-Proof. bench_lower ref_schumer_steiglitz schumer_steiglitz_lower. Qed.
-Theorem C17_schumer_steiglitz_min : forall n, den code_schumer_steiglitz (repeat 0 n) = Some 0.
-Proof. bench_value ref_schumer_steiglitz schumer_steiglitz_min. Qed.
+(* schumer_steiglitz, box [-100, 100]: minimum 0 at the origin *)
+Theorem C17_schumer_steiglitz :
+  (forall n x, length x = n -> (1 <= n)%nat -> den code_schumer_steiglitz x = den doc_schumer_steiglitz x) /\
+  (forall x, exists v, den code_schumer_steiglitz x = Some v /\ 0 <= v) /\
+  (forall n, den code_schumer_steiglitz (repeat 0 n) = Some 0).
+Proof.
+  split; [bench_formula | split; [bench_lower ref_schumer_steiglitz schumer_steiglitz_lower
+                                 | bench_value ref_schumer_steiglitz schumer_steiglitz_min]].
+Qed.
 
-(* alpine1: minimum 0 at the origin *)
-Theorem C17_alpine1_lower : forall x, exists v, den code_alpine1 x = Some v /\ 0 <= v.
-Proof. bench_lower ref_alpine1 alpine1_lower. Qed.
-Theorem C17_alpine1_min : forall n, den code_alpine1 (repeat 0 n) = Some 0.
-Proof. bench_value ref_alpine1 alpine1_min. Qed.
+(* alpine1, box [-10, 10]: minimum 0 at the origin *)
+Theorem C17_alpine1 :
+  (forall n x, length x = n -> (1 <= n)%nat -> den code_alpine1 x = den doc_alpine1 x) /\
+  (forall x, exists v, den code_alpine1 x = Some v /\ 0 <= v) /\
+  (forall n, den code_alpine1 (repeat 0 n) = Some 0).
+Proof. split; [bench_formula | split; [bench_lower ref_alpine1 alpine1_lower | bench_value ref_alpine1 alpine1_min]]. Qed.
 
-(* quintic: minimum value 0, attained at every array of roots -1 / 2 (at the origin the value is 4 n) *)
-Theorem C17_quintic_lower : forall x, exists v, den code_quintic x = Some v /\ 0 <= v.
-Proof. bench_lower ref_quintic quintic_lower. Qed.
-Theorem C17_quintic_min : forall x, (forall t, In t x -> t = -1 \/ t = 2) -> den code_quintic x = Some 0.
-Proof. bench_value ref_quintic quintic_min. Qed.
-Theorem C17_quintic_at_origin : forall n, den code_quintic (repeat 0 n) = Some (4 * INR n).
-Proof. bench_value ref_quintic quintic_at_origin. Qed.
+(* quintic, box [-10, 10]: minimum value 0, attained at every array whose coordinates are the roots -1 / 2
+   (at the origin the value is 4 n: "minimum at 0" is the minimum value, as in the other docstrings) *)
+Theorem C17_quintic :
+  (forall n x, length x = n -> (1 <= n)%nat -> den code_quintic x = den doc_quintic x) /\
+  (forall x, exists v, den code_quintic x = Some v /\ 0 <= v) /\
+  (forall x, (forall t, In t x -> t = -1 \/ t = 2) -> den code_quintic x = Some 0) /\
+  (forall n, den code_quintic (repeat 0 n) = Some (4 * INR n)).
+Proof.
+  split; [bench_formula | split; [bench_lower ref_quintic quintic_lower | split;
+    [bench_value ref_quintic quintic_min | bench_value ref_quintic quintic_at_origin]]].
+Qed.
 
-(* rastringin: minimum 0 at the origin *)
-Theorem C17_rastringin_lower : forall x, exists v, den code_rastringin x = Some v /\ 0 <= v.
-Proof. bench_lower ref_rastringin rastringin_lower. Qed.
-Theorem C17_rastringin_min : forall n, den code_rastringin (repeat 0 n) = Some 0.
-Proof. bench_value ref_rastringin rastringin_min. Qed.
+(* rastringin, box [-5.12, 5.12]: minimum 0 at the origin *)
+Theorem C17_rastringin :
+  (forall n x, length x = n -> (1 <= n)%nat -> den code_rastringin x = den doc_rastringin x) /\
+  (forall x, exists v, den code_rastringin x = Some v /\ 0 <= v) /\
+  (forall n, den code_rastringin (repeat 0 n) = Some 0).
+Proof. split; [bench_formula | split; [bench_lower ref_rastringin rastringin_lower | bench_value ref_rastringin rastringin_min]]. Qed.
 
-(* salomon: minimum 0 at the origin *)
-Theorem C17_salomon_lower : forall x, exists v, den code_salomon x = Some v /\ 0 <= v.
-Proof. bench_lower ref_salomon salomon_lower. Qed.
-Theorem C17_salomon_min : forall n, den code_salomon (repeat 0 n) = Some 0.
-Proof. bench_value ref_salomon salomon_min. Qed.
+(* salomon, box [-100, 100]: minimum 0 at the origin *)
+Theorem C17_salomon :
+  (forall n x, length x = n -> (1 <= n)%nat -> den code_salomon x = den doc_salomon x) /\
+  (forall x, exists v, den code_salomon x = Some v /\ 0 <= v) /\
+  (forall n, den code_salomon (repeat 0 n) = Some 0).
+Proof. split; [bench_formula | split; [bench_lower ref_salomon salomon_lower | bench_value ref_salomon salomon_min]]. Qed.
 
-(* ackley1: minimum 0 at the origin (n >= 1: 1/n) *)
-Theorem C17_ackley1_lower : forall x, (1 <= length x)%nat -> exists v, den code_ackley1 x = Some v /\ 0 <= v.
-Proof. bench_lower ref_ackley1 ackley1_lower. Qed.
-Theorem C17_ackley1_min : forall n, (1 <= n)%nat -> den code_ackley1 (repeat 0 n) = Some 0.
-Proof. bench_value ref_ackley1 ackley1_min. Qed.
+(* ackley1, box [-35, 35]: minimum 0 at the origin (n >= 1 because of 1/n) *)
+Theorem C17_ackley1 :
+  (forall n x, length x = n -> (1 <= n)%nat -> den code_ackley1 x = den doc_ackley1 x) /\
+  (forall x, (1 <= length x)%nat -> exists v, den code_ackley1 x = Some v /\ 0 <= v) /\
+  (forall n, (1 <= n)%nat -> den code_ackley1 (repeat 0 n) = Some 0).
+Proof. split; [bench_formula | split; [bench_lower ref_ackley1 ackley1_lower | bench_value ref_ackley1 ackley1_min]]. Qed.
 
-(* brown: minimum 0 at the origin; 0 ** (0 + 1) = 0 in the float power semantics *)
-Theorem C17_brown_lower : forall x, exists v, den code_brown x = Some v /\ 0 <= v.
-Proof. bench_lower ref_brown brown_lower. Qed.
-Theorem C17_brown_min : forall n, den code_brown (repeat 0 n) = Some 0.
-Proof. bench_value ref_brown brown_min. Qed.
+(* brown, box [-1, 4], n >= 2: minimum 0 at the origin; 0 ** (0 + 1) = 0 in the float power semantics *)
+Theorem C17_brown :
+  (forall n x, length x = n -> (2 <= n)%nat -> den code_brown x = den doc_brown x) /\
+  (forall x, exists v, den code_brown x = Some v /\ 0 <= v) /\
+  (forall n, den code_brown (repeat 0 n) = Some 0).
+Proof. split; [bench_formula | split; [bench_lower ref_brown brown_lower | bench_value ref_brown brown_min]]. Qed.
 
-(* exponential: minimum -1 at the origin *)
-Theorem C17_exponential_lower : forall x, exists v, den code_exponential x = Some v /\ -1 <= v.
-Proof. bench_lower ref_exponential exponential_lower. Qed.
-Theorem C17_exponential_min : forall n, den code_exponential (repeat 0 n) = Some (-1).
-Proof. bench_value ref_exponential exponential_min. Qed.
+(* exponential, box [-1, 1]: minimum -1 at the origin *)
+Theorem C17_exponential :
+  (forall n x, length x = n -> (1 <= n)%nat -> den code_exponential x = den doc_exponential x) /\
+  (forall x, exists v, den code_exponential x = Some v /\ -1 <= v) /\
+  (forall n, den code_exponential (repeat 0 n) = Some (-1)).
+Proof. split; [bench_formula | split; [bench_lower ref_exponential exponential_lower | bench_value ref_exponential exponential_min]]. Qed.
 
-(* deb1: minimum -1 at 0.1 * ones *)
-Theorem C17_deb1_lower : forall x, (1 <= length x)%nat -> exists v, den code_deb1 x = Some v /\ -1 <= v.
-Proof. bench_lower ref_deb1 deb1_lower. Qed.
-Theorem C17_deb1_min : forall n, (1 <= n)%nat -> den code_deb1 (repeat (1 / 10) n) = Some (-1).
-Proof. bench_value ref_deb1 deb1_min. Qed.
+(* deb1, box [-1, 1]: minimum -1 at 0.1 * ones *)
+Theorem C17_deb1 :
+  (forall n x, length x = n -> (1 <= n)%nat -> den code_deb1 x = den doc_deb1 x) /\
+  (forall x, (1 <= length x)%nat -> exists v, den code_deb1 x = Some v /\ -1 <= v) /\
+  (forall n, (1 <= n)%nat -> den code_deb1 (repeat (1 / 10) n) = Some (-1)).
+Proof. split; [bench_formula | split; [bench_lower ref_deb1 deb1_lower | bench_value ref_deb1 deb1_min]]. Qed.
 
-(* schwefel on [-500, 500]: never below the documented 0; the constant 418.9829 is the maximum of
-   x sin sqrt|x| rounded up, so 0 is approached to 1.3e-5 n at the known minimiser 420.9687 but never attained *)
-Theorem C17_schwefel_lower : forall x, in_box (-500) 500 x -> exists v, den code_schwefel x = Some v /\ 0 <= v.
-Proof. bench_lower ref_schwefel schwefel_lower. Qed.
-Theorem C17_schwefel_near_min : forall n,
-  exists v, den code_schwefel (repeat (4209687 / 10000) n) = Some v /\ 0 <= v <= 13 / 1000000 * INR n.
-Proof. bench_between ref_schwefel schwefel_near_min. Qed.
-Theorem C17_schwefel_never_exactly_zero : forall x v, (1 <= length x)%nat -> in_box (-500) 500 x ->
-  den code_schwefel x = Some v -> 0 < v.
-Proof. intros x v Hn B E. bench_positive_if_defined ref_schwefel schwefel_positive. Qed.
+(* schwefel, box [-500, 500]: never below the documented 0.  The constant 418.9829 is the maximum of x sin sqrt|x|
+   rounded up to 4 decimals, so at the known minimiser 420.9687 the value is within 1.3e-5 n of 0, and 0 itself is
+   never attained (value >= 1e-5 n). *)
+Theorem C17_schwefel :
+  (forall n x, length x = n -> (1 <= n)%nat -> den code_schwefel x = den doc_schwefel x) /\
+  (forall x, in_box (-500) 500 x -> exists v, den code_schwefel x = Some v /\ 0 <= v) /\
+  (forall n, exists v, den code_schwefel (repeat (4209687 / 10000) n) = Some v /\ 0 <= v <= 13 / 1000000 * INR n) /\
+  (forall x v, (1 <= length x)%nat -> in_box (-500) 500 x -> den code_schwefel x = Some v -> 0 < v).
+Proof.
+  split; [bench_formula | split; [bench_lower ref_schwefel schwefel_lower | split;
+    [bench_between ref_schwefel schwefel_near_min | intros x v Hn B E; bench_positive_if_defined ref_schwefel schwefel_positive]]].
+Qed.
 
-(* ================================================================= 3. the unchanged code contradicts the
+(* ================================================================= 2. the unchanged code contradicts the
    property on part of its documented box (known findings csendes:zero-coordinate, deb2:negative-coordinate) *)
 
-(* csendes, documented box [-1, 1], documented minimum 0 "at 0":  x^6 (2 + sin(1/x)) is undefined (NaN) as soon as a
-   coordinate is 0.  Full statement that does NOT hold:
-     forall n, 1 <= n -> den code_csendes (repeat 0 n) = Some 0 *)
-Theorem C17_csendes_undefined_with_zero_coordinate : forall x, In 0 x -> den code_csendes x = None.
-Proof. bench_undef ref_csendes csendes_undefined_zero. Qed.
+(* csendes, box [-1, 1], documented minimum 0 "at 0":  x^6 (2 + sin(1/x)) is undefined (NaN) as soon as a coordinate
+   is 0.  Statement that does NOT hold:  forall n, 1 <= n -> den code_csendes (repeat 0 n) = Some 0.
+   Proved instead: (formula); undefined with a zero coordinate, in particular at the documented minimiser;
+   wherever defined the value is >= 0, and even > 0: the documented minimum is never attained. *)
+Theorem C17_csendes :
+  (forall n x, length x = n -> (1 <= n)%nat -> den code_csendes x = den doc_csendes x) /\
+  (forall x, In 0 x -> den code_csendes x = None) /\
+  (forall x v, den code_csendes x = Some v -> 0 <= v) /\
+  (forall x v, (1 <= length x)%nat -> den code_csendes x = Some v -> 0 < v).
+Proof.
+  split; [bench_formula | split; [bench_undef ref_csendes csendes_undefined_zero | split;
+    [intros x v E; bench_lower_if_defined ref_csendes csendes_lower
+    | intros x v Hn E; bench_positive_if_defined ref_csendes csendes_positive]]].
+Qed.
 Theorem C17_csendes_min_refuted : forall n, (1 <= n)%nat -> den code_csendes (repeat 0 n) = None.
-Proof. intros n Hn. apply C17_csendes_undefined_with_zero_coordinate. destruct n; [lia | left; reflexivity]. Qed.
-Theorem C17_csendes_lower_where_defined : forall x v, den code_csendes x = Some v -> 0 <= v.
-Proof. intros x v E. bench_lower_if_defined ref_csendes csendes_lower. Qed.
-Theorem C17_csendes_never_attains_zero : forall x v, (1 <= length x)%nat -> den code_csendes x = Some v -> 0 < v.
-Proof. intros x v Hn E. bench_positive_if_defined ref_csendes csendes_positive. Qed.
+Proof. intros n Hn. apply (proj1 (proj2 C17_csendes)). destruct n; [lia | left; reflexivity]. Qed.
 
-(* deb2, documented box [-1, 1], documented minimum -1:  x ** (3/4) is NaN for x < 0.  Full statement that does NOT hold:
-     forall x, 1 <= length x -> in_box (-1) 1 x -> exists v, den code_deb2 x = Some v /\ -1 <= v *)
-Theorem C17_deb2_undefined_with_negative_coordinate : forall x t, (1 <= length x)%nat -> In t x -> t < 0 ->
-  den code_deb2 x = None.
-Proof. bench_undef ref_deb2 deb2_undefined_negative. Qed.
+(* deb2, box [-1, 1], documented minimum -1:  x ** (3/4) is NaN for x < 0.  Statement that does NOT hold:
+     forall x, 1 <= length x -> in_box (-1) 1 x -> exists v, den code_deb2 x = Some v /\ -1 <= v.
+   Proved instead: (formula); undefined with a negative coordinate; on the non-negative half [0, 1] the documented
+   minimum -1 is a lower bound and is attained at 0.15^(4/3) * ones (about 0.0797), which lies in the box. *)
+Theorem C17_deb2 :
+  (forall n x, length x = n -> (1 <= n)%nat -> den code_deb2 x = den doc_deb2 x) /\
+  (forall x t, (1 <= length x)%nat -> In t x -> t < 0 -> den code_deb2 x = None) /\
+  (forall x, (1 <= length x)%nat -> in_box 0 1 x -> exists v, den code_deb2 x = Some v /\ -1 <= v) /\
+  (forall n, (1 <= n)%nat -> den code_deb2 (repeat (Rpower (3 / 20) (4 / 3)) n) = Some (-1)) /\
+  0 <= Rpower (3 / 20) (4 / 3) <= 1.
+Proof.
+  split; [bench_formula | split; [bench_undef ref_deb2 deb2_undefined_negative | split;
+    [bench_lower ref_deb2 deb2_lower | split; [bench_value ref_deb2 deb2_min | exact deb2_argmin_in_box]]]].
+Qed.
 Theorem C17_deb2_documented_box_refuted : exists x, (1 <= length x)%nat /\ in_box (-1) 1 x /\ den code_deb2 x = None.
 Proof.
   exists [-1 / 2]. split; [simpl; lia|]. split; [intros t [E|[]]; subst; lra|].
-  apply (C17_deb2_undefined_with_negative_coordinate [-1 / 2] (-1 / 2)); [simpl; lia | left; reflexivity | lra].
+  apply (proj1 (proj2 C17_deb2) [-1 / 2] (-1 / 2)); [simpl; lia | left; reflexivity | lra].
 Qed.
-(* on the non-negative half [0, 1] the documented minimum -1 is coherent *)
-Theorem C17_deb2_lower_on_nonnegative_box : forall x, (1 <= length x)%nat -> in_box 0 1 x ->
-  exists v, den code_deb2 x = Some v /\ -1 <= v.
-Proof. bench_lower ref_deb2 deb2_lower. Qed.
-Theorem C17_deb2_min : forall n, (1 <= n)%nat -> den code_deb2 (repeat deb2_argmin n) = Some (-1).
-Proof. bench_value ref_deb2 deb2_min. Qed.
-Theorem C17_deb2_argmin_in_box : 0 <= deb2_argmin <= 1 /\ deb2_argmin = Rpower (3 / 20) (4 / 3).
-Proof. split; [exact deb2_argmin_in_box | reflexivity]. Qed.
 
-(* ================================================================= 4. documented minima that are not coherent
-   (formula proved above; the documented minimum is shown not to be the minimum, the true bound is proved instead) *)
+(* ================================================================= 3. documented minima that are not coherent
+   (formula proved; the documented minimum is shown not to be the minimum and the true bound is proved instead) *)
 
-(* alpine2 on [0, 10]: "-2.808^n" is a rounded constant: the function goes below it; the true bound is -(2.8082)^n *)
-Theorem C17_alpine2_true_lower : forall x, in_box 0 10 x ->
-  exists v, den code_alpine2 x = Some v /\ - (28082 / 10000) ^ length x <= v.
-Proof. bench_lower ref_alpine2 alpine2_lower. Qed.
-Theorem C17_alpine2_documented_min_refuted :
-  exists x, (in_box 0 10 x /\ (1 <= length x)%nat) /\ exists v, den code_alpine2 x = Some v /\ v < - (2808 / 1000) ^ length x.
-Proof. exists alpine2_witness. split; [exact alpine2_witness_box | bench_below ref_alpine2 alpine2_witness_below]. Qed.
+(* alpine2, box [0, 10]: "-2.808^n" is a rounded constant: the function goes below it (n = 1, x = 7.917);
+   the true bound is -(2.8082)^n *)
+Theorem C17_alpine2 :
+  (forall n x, length x = n -> (1 <= n)%nat -> den code_alpine2 x = den doc_alpine2 x) /\
+  (forall x, in_box 0 10 x -> exists v, den code_alpine2 x = Some v /\ - (28082 / 10000) ^ length x <= v) /\
+  (exists x, (in_box 0 10 x /\ (1 <= length x)%nat) /\ exists v, den code_alpine2 x = Some v /\ v < - (2808 / 1000) ^ length x).
+Proof.
+  split; [bench_formula | split; [bench_lower ref_alpine2 alpine2_lower |
+    exists alpine2_witness; split; [exact alpine2_witness_box | bench_below ref_alpine2 alpine2_witness_below]]].
+Qed.
 
-(* styblinski_tang on [-5, 5]: "-78.332" is the n = 2 value: not attained for n = 1, violated for n = 3;
-   the true bound is -39.1662 n *)
-Theorem C17_styblinski_tang_true_lower : forall x, in_box (-5) 5 x ->
-  exists v, den code_styblinski_tang x = Some v /\ -391662 / 10000 * INR (length x) <= v.
-Proof. bench_lower ref_styblinski_tang styblinski_tang_lower. Qed.
-Theorem C17_styblinski_tang_documented_min_refuted :
-  exists x, (in_box (-5) 5 x /\ (1 <= length x)%nat) /\ exists v, den code_styblinski_tang x = Some v /\ v < -78332 / 1000.
-Proof. exists styblinski_tang_witness. split; [exact styblinski_tang_witness_box | bench_below ref_styblinski_tang styblinski_tang_witness_below]. Qed.
-Theorem C17_styblinski_tang_documented_min_not_attained_n1 : forall t, -5 <= t <= 5 ->
-  exists v, den code_styblinski_tang [t] = Some v /\ -78332 / 1000 < v.
-Proof. bench_above ref_styblinski_tang styblinski_tang_doc_min_not_attained_n1. Qed.
+(* styblinski_tang, box [-5, 5]: "-78.332" is the n = 2 value: violated for n = 3 (x = -2.9 * ones), not attained for
+   n = 1; the true bound is -39.1662 n (for every real array) *)
+Theorem C17_styblinski_tang :
+  (forall n x, length x = n -> (1 <= n)%nat -> den code_styblinski_tang x = den doc_styblinski_tang x) /\
+  (forall x, exists v, den code_styblinski_tang x = Some v /\ -391662 / 10000 * INR (length x) <= v) /\
+  (exists x, (in_box (-5) 5 x /\ (1 <= length x)%nat) /\ exists v, den code_styblinski_tang x = Some v /\ v < -78332 / 1000) /\
+  (forall t, exists v, den code_styblinski_tang [t] = Some v /\ -78332 / 1000 < v).
+Proof.
+  split; [bench_formula | split; [bench_lower ref_styblinski_tang styblinski_tang_lower | split;
+    [exists styblinski_tang_witness; split; [exact styblinski_tang_witness_box
+                                            | bench_below ref_styblinski_tang styblinski_tang_witness_below]
+    | bench_above ref_styblinski_tang styblinski_tang_doc_min_not_attained_n1]]].
+Qed.
 
-(* cosine_mixture on [-1, 1]: "0.1 n" is the MAXIMUM of the coded (and documented) expression, attained at 0 *)
-Theorem C17_cosine_mixture_upper : forall x, exists v, den code_cosine_mixture x = Some v /\ v <= 1 / 10 * INR (length x).
-Proof. bench_upper ref_cosine_mixture cosine_mixture_upper. Qed.
-Theorem C17_cosine_mixture_at_origin : forall n, den code_cosine_mixture (repeat 0 n) = Some (1 / 10 * INR n).
-Proof. bench_value ref_cosine_mixture cosine_mixture_at_origin. Qed.
-Theorem C17_cosine_mixture_documented_min_refuted :
-  exists x, (in_box (-1) 1 x /\ (1 <= length x)%nat) /\ exists v, den code_cosine_mixture x = Some v /\ v < 1 / 10 * INR (length x).
-Proof. exists cosine_mixture_witness. split; [exact cosine_mixture_witness_box | bench_below ref_cosine_mixture cosine_mixture_witness_below]. Qed.
+(* cosine_mixture, box [-1, 1]: "0.1 n" is the MAXIMUM of the coded (and documented) expression, attained at the
+   origin; it is not a lower bound (x = [1]) *)
+Theorem C17_cosine_mixture :
+  (forall n x, length x = n -> (1 <= n)%nat -> den code_cosine_mixture x = den doc_cosine_mixture x) /\
+  (forall x, exists v, den code_cosine_mixture x = Some v /\ v <= 1 / 10 * INR (length x)) /\
+  (forall n, den code_cosine_mixture (repeat 0 n) = Some (1 / 10 * INR n)) /\
+  (exists x, (in_box (-1) 1 x /\ (1 <= length x)%nat) /\ exists v, den code_cosine_mixture x = Some v /\ v < 1 / 10 * INR (length x)).
+Proof.
+  split; [bench_formula | split; [bench_upper ref_cosine_mixture cosine_mixture_upper | split;
+    [bench_value ref_cosine_mixture cosine_mixture_at_origin
+    | exists cosine_mixture_witness; split; [exact cosine_mixture_witness_box
+                                            | bench_below ref_cosine_mixture cosine_mixture_witness_below]]]].
+Qed.
 
 (* ================================================================= non-vacuity *)
-Example C17_brown_min_n2 : den code_brown [0; 0] = Some 0.
-Proof. exact (C17_brown_min 2). Qed.
-Example C17_guard_is_real : den (BDiv (BZ 1) (BZ 0)) [] = None /\ den (BSqrt (BZ (-1))) [] = None.
+Example C17_nonvacuous : den code_brown [0; 0] = Some 0 /\ den code_sphere [3; 4] = Some 25 /\
+  den (BDiv (BZ 1) (BZ 0)) [] = None /\ den (BSqrt (BZ (-1))) [] = None.
 Proof.
-  split; apply den_none; cbn [bdef bval]; intros H.
-  - destruct H as [_ [_ H]]. apply H. reflexivity.
-  - destruct H as [_ H]. lra.
+  split; [exact (proj2 (proj2 C17_brown) 2%nat)|]. split.
+  - apply den_some. unfold code_sphere. cbn [bdef bval sumf allf]. split; [tauto | lra].
+  - split; apply den_none; cbn [bdef bval]; intros H.
+    + destruct H as [_ [_ H]]. apply H. reflexivity.
+    + destruct H as [_ H]. lra.
 Qed.
